@@ -1,5 +1,6 @@
 import Spake2Verif.Proofs.PropAuxA
 import Spake2Verif.Proofs.History
+import Spake2Verif.Proofs.ProtoFlowTie
 /-!
 # C08 — Persist/restore is transparent at every point between start and finish
 
@@ -239,5 +240,13 @@ example :
           Char.ofNat) ++
         "\", \"side\": \"S\", \"idS\": \"07\", \"password\": \"01\", \"xy_scalar\": \"04\"}")) := by
   decide +kernel
+
+/-- Tie A: `serialize()` (its guard) and both `_deserialize_from_dict` (constructor, checks, `_started = True`,
+`bytes_to_scalar`, recomputation of the outbound message) are the translation of the source, as is the `finish()`
+that is run on the restored instance -/
+theorem persist_restore_are_the_source {G : Group} :
+    (fun i : Inst G => (i, i.serialize)) = ProtoFlowTie.flowSerialize ∧
+    @fromDict G = ProtoFlowTie.flowRestore ∧ @Inst.finish G = ProtoFlowTie.flowFinish :=
+  ⟨ProtoFlowTie.serialize_is_source, ProtoFlowTie.restore_is_source, ProtoFlowTie.finish_is_source⟩
 
 end Spake2Verif.C08
